@@ -261,19 +261,21 @@ end
 
 /-! ### `SerializableOrderedMap.Decode` and `typeutils` -/
 
-/-- `for range mapSize { key; value }` with fixed-width unsigned keys and values (serix.Decode of a
-uintN is `ReadNum`): result class and bytes read -/
-def omapLoop (kw vw : Nat) : Nat → Bytes → Nat → Res × Nat × Nat
-  | 0, _, acc => (.ok, acc, 0)
-  | k + 1, b, acc =>
+/-- `for range mapSize { key; duplicate check; value }` with fixed-width unsigned keys and values
+(serix.Decode of a uintN is `ReadNum`); `seen` = the keys decoded by this call so far (a key that occurs
+twice in the serialized bytes is an error since `fix:` dde4606).  Result class, bytes read, rounds. -/
+def omapLoop (kw vw : Nat) : Nat → Bytes → Nat → List Bytes → Res × Nat × Nat
+  | 0, _, acc, _ => (.ok, acc, 0)
+  | k + 1, b, acc, seen =>
     if b.length < kw then (.err, 0, 1)
+    else if seen.contains (b.take kw) then (.err, 0, 1)
     else if (b.drop kw).length < vw then (.err, 0, 1)
     else
-      let r := omapLoop kw vw k (b.drop (kw + vw)) (acc + kw + vw)
+      let r := omapLoop kw vw k (b.drop (kw + vw)) (acc + kw + vw) (b.take kw :: seen)
       (r.1, r.2.1, r.2.2 + 1)
 
 def omapDecode (kw vw : Nat) (b : Bytes) : Res × Nat × Nat :=
-  if b.length < 4 then (.err, 0, 0) else omapLoop kw vw (leNat (b.take 4)) (b.drop 4) 4
+  if b.length < 4 then (.err, 0, 0) else omapLoop kw vw (leNat (b.take 4)) (b.drop 4) 4 []
 
 /-- `typeutils.Uint64FromBytes` (n = 8) / `ByteArray32FromBytes` (n = 32) -/
 def fromBytesFixed (n : Nat) (b : Bytes) : Option (Bytes × Nat) :=
